@@ -4,13 +4,17 @@ PROPS["C11"] = dict(
           job("asan", "c11_memviews", flavour="asan", cases={Q: 3, T: 100}),
           # every instruction handler of the decode table with its pointers inside the MMIO window: window twin (A) vs
           # relocated-window twin (B), SharedMemory observer on both
-          job("forms", "c11_forms", cases={Q: 1000, T: 40000})],
+          job("forms", "c11_forms", cases={Q: 1000, T: 40000}),
+          # the same host-accessor histories through the C binding and through the C++ facade (two instances), every return
+          # value, callback and the memory digest compared
+          job("bindings", "c17_history", cases={Q: 60, T: 3000}, mode="capi", args={"prop": "C11", "hostbias": 70})],
     crash_is_violation=True,
     rule="per case one Teakra facade (even cases: owned memory, odd cases: UserConfig.dsp_memory) with random contents and a "
          "history of 20000 operations chosen among ProgramRead/Write, DataRead/Write with and without bypass_mmio, "
          "DataReadA32/WriteA32, raw-pointer byte/word accesses, z_page and mmio_base changes (all 64 multiples of 0x400 and "
          "random 16-bit bases; also through the window itself), guest loads/stores through the forms [page:imm8], [imm16], "
-         "[r7+imm16], [r7+imm7s], [rN]/[rN++], movp [a0l]/[a0]/[rN]->[rM], movd, and an instruction-fetch probe; guest code is "
+         "[r7+imm16], [r7+imm7s], [rN]/[rN++], movp [a0l]/[a0]/[rN]->[rM], movd, an instruction-fetch probe and a fetch-after-guest-store probe "
+         "(code in the data bank rewrites the next word, or - under rep - its own word, within one Run call; the rewritten instruction must be the one executed); guest code is "
          "one instruction laid down through a random view at a random program address and run with Run(1). After every "
          "operation the touched word is read through raw pointer, ProgramRead, DataReadA32, DataRead(bypass) and DataRead; "
          "the whole array is compared every 64 operations. Accesses honouring the MMIO window are steered to side-effect-free "
@@ -20,17 +24,22 @@ PROPS["C11"] = dict(
          "the decode table, r0-r7/page/second word pointing at storage registers inside the window; one Run(1) on a facade with the window at 0x8000 (A) "
          "and on one with the window relocated to 0xF800 and the register values laid down in memory (B); the SharedMemory observer must see no access "
          "of A to the words under the window, those words stay unchanged, and when B only touched storage registers A and B end in the same register "
-         "state, the same accesses elsewhere, and A's registers read back what B's memory holds",
-    floors={Q: {"ops": 5000000, "guest_instructions": 1800000, "guest_loads": 500000, "guest_stores": 600000, "fetch_probes": 300000,
+         "state, the same accesses elsewhere, and A's registers read back what B's memory holds. bindings: histories of 10-60 host calls (70% memory accessors: "
+         "DataReadA32/WriteA32 incl. addresses >= 0x10000 and under the window, ProgramRead, DataRead/Write without bypass on window registers, z_page / "
+         "MMIO base changes, DMA/AHBM getters; 30% the C17 operation mix incl. Run of generated guest programs) applied to a C++ Teakra and to a teakra_c "
+         "context; all return values, callback logs, MMIO read-backs and the memory digest must agree",
+    floors={Q: {"ops": 5000000, "guest_instructions": 1800000, "guest_loads": 500000, "guest_stores": 600000, "fetch_probes": 200000, "fetch_after_store_probes": 100000,
                 "guest_program_loads": 200000, "guest_movd": 100000, "guest_movp_mem": 100000,
                 "mmio_window_writes": 200000, "mmio_window_reads": 150000, "mmio_window_zpage1_assert": 150000,
                 "bypass_writes_inside_window": 30000, "bypass_reads_inside_window": 30000, "full_compares": 80000,
                 "mmio_bases_probed": 1000, "mmio_documented_positions_probed": 64, "cases_user_memory": 150,
                 "cases_owned_memory": 150, "z_page_switches": 100000, "config_through_window": 30000,
-                "cases_with_window_access": 3000, "value_twins_compared": 1500, "window_handlers": 60},
+                "cases_with_window_access": 3000, "value_twins_compared": 1500, "window_handlers": 60,
+                "op_a32-write": 3000, "op_a32-read": 3000, "op_data-nobypass": 2000},
             T: {"ops": 150000000, "guest_instructions": 40000000, "mmio_window_writes": 2000000, "mmio_window_reads": 2000000,
                 "mmio_window_zpage1_assert": 500000, "mmio_bases_probed": 10000, "mmio_documented_positions_probed": 64, "full_compares": 2000000,
-                "cases_with_window_access": 120000, "value_twins_compared": 60000, "window_handlers": 60}},
+                "cases_with_window_access": 120000, "value_twins_compared": 60000, "window_handlers": 60,
+                "op_a32-write": 150000, "op_a32-read": 150000, "op_data-nobypass": 100000}},
     ready=True,
     technique="runtime monitoring: byte-array reference model of the shared memory compared through every host and guest view of "
               "the real Teakra facade after each operation",
